@@ -82,9 +82,11 @@ func (q *Queue) Pop() any {
 }
 
 func queueLoad(p *unsafe.Pointer) (n *node) {
+	verifYield(VerifSiteQueueLoad)
 	return (*node)(atomic.LoadPointer(p))
 }
 
 func queueCas(p *unsafe.Pointer, old, new *node) (ok bool) {
+	verifYield(VerifSiteQueueCas)
 	return atomic.CompareAndSwapPointer(p, unsafe.Pointer(old), unsafe.Pointer(new))
 }
